@@ -123,6 +123,7 @@ structure FloatOps (F : Type) where
   le : F → F → Bool
   abs : F → F                  -- math.Abs
   round : F → F                -- math.Round
+  ceil : F → F                 -- math.Ceil
   sin : F → F                  -- math.Sin
   cos : F → F                  -- math.Cos
   sq : F → F                   -- math.Pow(x, 2)
@@ -195,7 +196,13 @@ def sineIter (p : SineP F) (t : Int) (hits : Nat) : Nat → Int → Int × Bool
 
 /-- How `SinePacer.Pace` left. -/
 inductive SineExit where
-  | invalid | behind | converged | unconverged
+  | invalid      -- configuration invalid: stop
+  | behind       -- catch-up: wait 0
+  | converged    -- return from inside the 5-step fixed-point loop
+  | bisected     -- return from inside the bisection (error below 1e-3)
+  | bracket      -- bisection narrowed the bracket to 1ns: its upper end
+  | nobracket    -- no bracket / deadline beyond the representable time: stop
+  | unconverged  -- old code: last guess of the fixed-point loop; new code: bisection fuel exhausted
   deriving DecidableEq, Repr, Inhabited
 
 /-- First guess `nextHitIn := time.Duration(nsPerHit * hitsToWait)`. -/
@@ -204,15 +211,57 @@ def sineFirstGuess (p : SineP F) (t : Int) (hits : Nat) : Int :=
   let hitsToWait := o.sub (o.ofUInt64 (wrapU64 ((hits : Int) + 1))) (sineHits o p t)
   o.toInt64 (o.mul nsPerHit hitsToWait)
 
-/-- `SinePacer.Pace` with the exit taken, lib/pacer.go:176-205. -/
+/-- `err := float64(elapsedHits+1) - sp.hits(elapsedTime + g)` as computed. -/
+def sineErr (p : SineP F) (t : Int) (hits : Nat) (g : Int) : F :=
+  o.sub (o.ofUInt64 (wrapU64 ((hits : Int) + 1))) (sineHits o p (wrapS64 (t + g)))
+
+/-- `hi := math.Ceil(hitsToWait / (Mean.hitsPerNs() - math.Abs(Amp.hitsPerNs())))`. -/
+def sineHi (p : SineP F) (t : Int) (hits : Nat) : F :=
+  let hitsToWait := o.sub (o.ofUInt64 (wrapU64 ((hits : Int) + 1))) (sineHits o p t)
+  o.ceil (o.div hitsToWait
+    (o.sub (hitsPerNs o p.meanFreq p.meanPer) (o.abs (hitsPerNs o p.ampFreq p.ampPer))))
+
+/-- The bisection `for up-lo > 1 { mid := lo + (up-lo)/2; … }` on a fuel argument.  For
+`0 ≤ lo ≤ up ≤ MaxInt64` the width halves in every step, so 64 units of fuel are never used up
+(`Props.C01.sine_bisect_fuel`); running out of fuel is reported as `.unconverged`. -/
+def sineBisect (p : SineP F) (t : Int) (hits : Nat) : Nat → Int → Int → Int × SineExit
+  | 0, _, up => (up, .unconverged)
+  | k + 1, lo, up =>
+    if 1 < wrapS64 (up - lo) then
+      let mid := wrapS64 (lo + (wrapS64 (up - lo)).tdiv 2)
+      let err := sineErr o p t hits mid
+      if o.lt (o.abs err) o.em3 then (mid, .bisected)
+      else if o.lt o.zero err then sineBisect p t hits k mid up
+      else sineBisect p t hits k lo mid
+    else (up, .bracket)
+
+/-- `SinePacer.Pace` with the exit taken, lib/pacer.go (commit 7529829): 5 fixed-point
+iterations, then bisection of `[0, hi]`. -/
 def sinePaceX (p : SineP F) (t : Int) (hits : Nat) : PaceOut × SineExit :=
   if sineInvalid o p = true then (.stop, .invalid)
   else if (hits : Int) < o.toUInt64 (sineHits o p t) then (.wait 0, .behind)
   else
     let r := sineIter o p t hits 5 (sineFirstGuess o p t hits)
-    (.wait r.1, if r.2 then .converged else .unconverged)
+    if r.2 then (.wait r.1, .converged)
+    else
+      let hi := sineHi o p t hits
+      -- `!(hi >= 0 && hi < float64(math.MaxInt64-elapsedTime))`
+      if (o.le o.zero hi && o.lt hi (o.ofInt64 (wrapS64 (maxInt64 - t)))) = false then
+        (.stop, .nobracket)
+      else
+        let b := sineBisect o p t hits 64 0 (o.toInt64 hi)
+        (.wait b.1, b.2)
 
 def sinePace (p : SineP F) (t : Int) (hits : Nat) : PaceOut := (sinePaceX o p t hits).1
+
+/-- `SinePacer.Pace` before commit 7529829: the last guess is returned when the loop does not
+converge (kept as the record of the defect). -/
+def sinePaceXOld (p : SineP F) (t : Int) (hits : Nat) : PaceOut × SineExit :=
+  if sineInvalid o p = true then (.stop, .invalid)
+  else if (hits : Int) < o.toUInt64 (sineHits o p t) then (.wait 0, .behind)
+  else
+    let r := sineIter o p t hits 5 (sineFirstGuess o p t hits)
+    (.wait r.1, if r.2 then .converged else .unconverged)
 
 /-! ## LinearPacer -/
 
